@@ -94,7 +94,7 @@ func (g *Circle) Contains(obj Object) bool {
 	case *SimplePoint:
 		return g.containsPoint(other.Center())
 	case *Circle:
-		return other.Distance(g)+other.meters <= g.meters
+		return geoDistancePoints(other.center, g.center)+other.meters <= g.meters
 	case Collection:
 		for _, p := range other.Children() {
 			if !g.Contains(p) {
@@ -114,7 +114,7 @@ func (g *Circle) Intersects(obj Object) bool {
 	case *Point:
 		return g.containsPoint(other.Center())
 	case *Circle:
-		return other.Distance(g) <= (other.meters + g.meters)
+		return geoDistancePoints(other.center, g.center) <= (other.meters + g.meters)
 	case Collection:
 		for _, p := range other.Children() {
 			if g.Intersects(p) {
